@@ -1043,7 +1043,8 @@ pub fn check_main(reg: &Registry, id: &str, tier: Tier) -> i32 {
 
     for (sig, (n, ex)) in excluded.iter() {
         let what = findings().into_iter().find(|f| &f.signature == sig).map(|f| f.entry).unwrap_or_default();
-        out_lines.push(format!("KNOWN-FINDING: property={} {} [{} occurrences this run, e.g. {}]", id, what, n, truncate(ex, 300)));
+        let what = what.trim_start_matches("known:").trim().trim_start_matches(&format!("property={}", id)).trim().to_string();
+        out_lines.push(format!("KNOWN-FINDING: property={} {} [signature {}; {} occurrences this run, e.g. {}]", id, what, sig, n, truncate(ex, 300)));
     }
 
     // ---------------------------------------------------------------- evidence
